@@ -441,6 +441,11 @@ theorem relVel_v_is_derivative (XA XB : Xf K) (VA VB : SV K) :
 theorem relAcc_is_derivative (XA XB : Xf K) (VA VB AA AB : SV K) :
     epsV (relVel (jetX XA VA) (jetSV VA AA) (jetX XB VB) (jetSV VB AB)).w = (relAcc XA VA AA XB VB AB).w ∧
     epsV (relVel (jetX XA VA) (jetSV VA AA) (jetX XB VB) (jetSV VB AB)).v = (relAcc XA VA AA XB VB AB).v := by
+  -- destructure first: keeps the kernel from re-unfolding the shared `let`s of `relAcc` (83 s → <1 s)
+  obtain ⟨⟨⟨r00, r01, r02⟩, ⟨r10, r11, r12⟩, ⟨r20, r21, r22⟩⟩, ⟨pa0, pa1, pa2⟩⟩ := XA
+  obtain ⟨RB, ⟨pb0, pb1, pb2⟩⟩ := XB
+  obtain ⟨⟨wa0, wa1, wa2⟩, ⟨va0, va1, va2⟩⟩ := VA; obtain ⟨⟨wb0, wb1, wb2⟩, ⟨vb0, vb1, vb2⟩⟩ := VB
+  obtain ⟨⟨ba0, ba1, ba2⟩, ⟨aa0, aa1, aa2⟩⟩ := AA; obtain ⟨⟨bb0, bb1, bb2⟩, ⟨ab0, ab1, ab2⟩⟩ := AB
   simp only [relVel, relAcc]; to_scalars; refine ⟨⟨?_, ?_, ?_⟩, ⟨?_, ?_, ?_⟩⟩ <;> ring
 
 /-- columns of `R` form a right-handed triad (`R` is a proper rotation) -/
